@@ -2,6 +2,7 @@ package props
 
 import (
 	"fmt"
+	"github.com/ipld/go-ipld-prime/node/basicnode"
 	"math"
 	"math/big"
 	"math/rand/v2"
@@ -40,7 +41,7 @@ func init() {
 		MinDistinct:     floor(4000, 50000),
 		RequiredCells: func(string) []string {
 			return []string{"purity/parse-print/history", "purity/parse-print/concurrent", "sel/quoted-delimiters", "sel/dot-field-alphabet", "sel/accepted", "sel/rejected", "sel/model-accepts", "sel/model-rejects", "sel/undecided", "sel/normalised", "sel/mutated", "sel/exhaustive", "sel/prefix-suffix",
-				"pol/ipld-roundtrip", "pol/dagjson-roundtrip", "pol/mutated-accepted", "pol/mutated-rejected", "pol/constructor-roundtrip"}
+				"pol/ipld-roundtrip", "pol/dagjson-roundtrip", "pol/mutated-accepted", "pol/mutated-rejected", "pol/constructor-roundtrip", "ctor/rejected-selector-text"}
 		},
 	})
 	addSelfTest("R-selparse vs in-tree supported forms", selfTestSelParse)
@@ -160,6 +161,8 @@ func c14Shape(s string) string {
 	return out
 }
 
+var c14RejCtr int
+
 func c14Selector(w *mon.W, s string, corpus *c14Corpus, origin string) {
 	sel, err := selector.Parse(s)
 	w.Eval(1)
@@ -177,6 +180,33 @@ func c14Selector(w *mon.W, s string, corpus *c14Corpus, origin string) {
 		w.Cover("sel/rejected")
 		if decided && mok {
 			w.Count("well-formed-by-model-but-rejected(not judged here)", 1)
+		}
+		// a text the parser rejects is rejected wherever it is handed in: every policy constructor
+		// that takes a selector, alone and nested (sampled: one rejected text in eight)
+		if c14RejCtr++; c14RejCtr%8 == 0 {
+			one := basicnode.NewInt(1)
+			inner := policy.Equal(".", one)
+			ctors := []struct {
+				name string
+				c    policy.Constructor
+			}{
+				{"Equal", policy.Equal(s, one)}, {"GreaterThan", policy.GreaterThan(s, one)}, {"GreaterThanOrEqual", policy.GreaterThanOrEqual(s, one)},
+				{"LessThan", policy.LessThan(s, one)}, {"LessThanOrEqual", policy.LessThanOrEqual(s, one)}, {"Like", policy.Like(s, "a*")},
+				{"All", policy.All(s, inner)}, {"Any", policy.Any(s, inner)},
+				{"Not(Equal)", policy.Not(policy.Equal(s, one))}, {"And(ok,Any)", policy.And(inner, policy.Any(s, inner))}, {"Or(All)", policy.Or(policy.All(s, inner))},
+				{"All(ok,Equal)", policy.All(".", policy.Equal(s, one))},
+			}
+			for _, ct := range ctors {
+				var pol policy.Policy
+				var cerr error
+				pi := mon.Guard(func() { pol, cerr = policy.Construct(ct.c) })
+				w.Eval(1)
+				w.Cover("ctor/rejected-selector-text")
+				if pi == nil && cerr == nil {
+					w.Violate("ctor/accepts-rejected-selector/"+ct.name, fmt.Sprintf("selector.Parse rejects %q (%v), but policy.%s builds a policy from it: %s", s, err, ct.name, mon.Trunc(pol.String(), 200)),
+						map[string]any{"selector_text": s, "constructor": ct.name, "parse_error": err.Error(), "policy": mon.Trunc(pol.String(), 500)})
+				}
+			}
 		}
 		return
 	}
